@@ -88,6 +88,20 @@ func (oe *outEval) pathModeApplies(bs *bufSpec) bool {
 	return false
 }
 
+// compileBufPathsOrBad: as compileBufPaths, but reports (instead of recording a problem) that the paths could not be followed.
+func (oe *outEval) compileBufPathsOrBad(bs *bufSpec, L *Lang) (*relang.DFA, bool, error) {
+	n := len(oe.Problems)
+	d, err := oe.compileBufPaths(bs, L, true)
+	if err != nil {
+		return nil, false, err
+	}
+	if len(oe.Problems) > n {
+		oe.Problems = oe.Problems[:n]
+		return nil, true, nil
+	}
+	return d, false, nil
+}
+
 func (oe *outEval) compileBufPaths(bs *bufSpec, L *Lang, entryEmpty bool) (*relang.DFA, error) {
 	oe.piecesOf(bs)
 	pe := &bufPathEval{oe: oe, bs: bs, L: L, out: relang.EmptyLang(L.A), aware: oe.lenAware(bs), any: L.All(), anySym: L.FullRe(`[\s\S]`)}
@@ -524,6 +538,20 @@ func (pe *bufPathEval) walk(b, from *ssa.BasicBlock, st *bpState, depth int) err
 	for _, ins := range b.Instrs {
 		if pe.bs.end != nil && ins == pe.bs.end {
 			return pe.finish(st)
+		}
+		for k < len(pcs) && pcs[k].At == ins && pcs[k].V != nil {
+			// a part of the returned concatenation, as it is on this path
+			v := pe.resolve(pcs[k].V, st)
+			pp := pathPiece{lx: pcs[k].X}
+			if ks, ok := constString(v); ok {
+				pp = pathPiece{d: relang.Literal(pe.L.A, ks)}
+			} else if sv, ok := pe.strOf(v, st, 0); ok {
+				pp = pathPiece{cut: &sv}
+			} else if v != pcs[k].V {
+				pp = pathPiece{lx: pe.oe.strLx(v, b, pe.bs.fr)}
+			}
+			st.seq = append(st.seq, pp)
+			k++
 		}
 		if k < len(pcs) && pcs[k].At == ins {
 			pp := pathPiece{lx: pcs[k].X}
